@@ -59,7 +59,7 @@ theorem length_L0 (Lx Ly Lz : Nat) : (L0 Lx Ly Lz).length =
 
 theorem length_LB0 (Lx Ly Lz : Nat) : (LB0 Lx Ly Lz).length =
     1 * (Ly - 1) * Lz + (half ((Lx - 2) * ((Ly - 1) * (Lz - 1))) false +
-    (half (1 * ((Ly - 4) * 1)) true + (half ((Lx - 3) * (1 * 1)) true + (Lz - 5) / 2))) := by
+    (half (1 * ((Ly - 4) * 1)) true + (half ((Lx - 3) * (1 * 1)) true + qn Lx Ly Lz))) := by
   unfold LB0
   simp only [List.length_append, length_bx_tt, length_qlist]
   rw [length_bx_chk _ _ _ _ _ _ _ _ (by decide) (by decide),
@@ -213,9 +213,10 @@ theorem lz_bool (c : Nat) :
 theorem thick_count {Lx Ly Lz : Nat} (hx : 4 ≤ Lx) (hy : 5 ≤ Ly) (hz : 5 ≤ Lz) :
     (rankFamily Lx Ly Lz).length + 1 = (qubits Lx Ly Lz).length := by
   have h1 := cubes_count Lx Ly Lz
-  have h2 := selTriangles_partition hx hy hz
+  have h2 := selTriangles_partition (Lx := Lx) (Ly := Ly) (Lz := Lz) (by omega) (by omega) hz
   have h3 := qubits_length_add Lx Ly Lz
-  rw [length_L3, length_L2, length_L1, length_L0, length_LB0, length_bx_tt, length_bx_tt] at h2
+  have hq : qn Lx Ly Lz = (Lz - 5) / 2 := by unfold qn; rw [if_pos ⟨hx, by omega⟩]
+  rw [length_L3, length_L2, length_L1, length_L0, length_LB0, length_bx_tt, length_bx_tt, hq] at h2
   unfold rankFamily
   rw [List.length_append]
   generalize (cubes Lx Ly Lz).length = C at *
